@@ -28,20 +28,24 @@ def nd(t, i):
     return 'Nondet%s(%d)' % (NONDET[t], i)
 
 
-def mk_case(tag, params, rettype, expr_or_body, ref, is_body=False):
+def mk_case(tag, params, rettype, expr_or_body, ref, is_body=False, nds=None):
     """params: [(name, type)]"""
     sig = ', '.join('%s %s' % (n, t) for n, t in params)
     if is_body:
         decl = '\n//go:noinline\nfunc %s(%s) %s {\n%s\n}\n' % (tag, sig, rettype, expr_or_body)
     else:
         decl = '\n//go:noinline\nfunc %s(%s) %s { return %s }\n' % (tag, sig, rettype, expr_or_body)
-    call = '%s(%s)' % (tag, ', '.join(nd(t, i) for i, (n, t) in enumerate(params)))
+    call = '%s(%s)' % (tag, ', '.join((nds[i] if nds and nds.get(i) else nd(t, i)) for i, (n, t) in enumerate(params)))
     body = out_stmt(tag, rettype, call)
     inputs = {i: t for i, (n, t) in enumerate(params)}
 
     def refw(names, ref=ref):
-        pc, val, kind = ref(*[names[i] for i in range(len(params))])
-        return {'panic': pc, 'value': val, 'kind': kind}
+        out = ref(*[names[i] for i in range(len(params))])
+        pc, val, kind = out[:3]
+        d = {'panic': pc, 'value': val, 'kind': kind}
+        if len(out) > 3 and out[3]:
+            d['via'] = out[3]
+        return d
     return tv.Case(tag, decl, body, inputs, refw)
 
 
@@ -64,6 +68,48 @@ def go_const(t, c):
     return '%s(%d)' % (t, c)
 
 
+DIV64_BITS = {'quick': 12, 'thorough': 24}
+
+
+def div64_inputs(t, tier):
+    b = DIV64_BITS[tier]
+    if t == 'int64':
+        return {0: 'NondetInt64R(0, %d, %d)' % (-(1 << b), (1 << b) - 1), 1: 'NondetInt64R(1, %d, %d)' % (-(1 << b), (1 << b) - 1)}
+    return {0: 'NondetUint64R(0, 0, %d)' % ((1 << b) - 1), 1: 'NondetUint64R(1, 0, %d)' % ((1 << b) - 1)}
+
+
+def upat(v):
+    """unsigned 64-bit pattern of a 64-bit input, spelled through the engine's 16-bit limb variables"""
+    return '(+ %s_l0 (* 65536 %s_l1) (* 4294967296 %s_l2) (* 281474976710656 %s_l3))' % (v, v, v, v)
+
+
+def binop_via(op, t, x, y):
+    pc, val, kind = binop(op, t, x, y)
+    if op == '*' and t == 'int64':
+        # signed product through the unsigned patterns: wrap(x*y) = wrap(U(x)*U(y)) is discharged as its own lemma
+        return pc, val, kind, [gospec.wrap('int64', '(* %s %s)' % (upat(x), upat(y)))]
+    if op in ('&', '|', '^', '&^') and INT_TYPES[t][1] == 64:
+        # the same bitwise operation on two's-complement bits, stated per 32-bit half of the unsigned patterns
+        hx, hy = '(+ %s_l2 (* 65536 %s_l3))' % (x, x), '(+ %s_l2 (* 65536 %s_l3))' % (y, y)
+        lx, ly = '(+ %s_l0 (* 65536 %s_l1))' % (x, x), '(+ %s_l0 (* 65536 %s_l1))' % (y, y)
+        f = {'&': '(bvand %s %s)', '|': '(bvor %s %s)', '^': '(bvxor %s %s)', '&^': '(bvand %s (bvnot %s))'}[op]
+        b32 = lambda v: '((_ int2bv 32) %s)' % v
+        u = '(+ (* 4294967296 (bv2int %s)) (bv2int %s))' % (f % (b32(hx), b32(hy)), f % (b32(lx), b32(ly)))
+        alt = u if t == 'uint64' else '(ite (>= %s 9223372036854775808) (- %s 18446744073709551616) %s)' % (u, u, u)
+        return pc, alt, kind     # (the 64-bit reference is this per-half statement; see evidence 'bounds')
+    return pc, val, kind
+
+
+def nds_for(t, ops, n, tier):
+    """64-bit division/remainder: bounded operands (see DIV64_BITS); everything else: full width."""
+    if INT_TYPES[t][1] != 64 or not any(o in ('/', '%') for o in ops):
+        return None, ''
+    b = DIV64_BITS[tier]
+    if t == 'int64':
+        return {i: 'NondetInt64R(%d, %d, %d)' % (i, -(1 << b), (1 << b) - 1) for i in range(n)}, '_bounded'
+    return {i: 'NondetUint64R(%d, 0, %d)' % (i, (1 << b) - 1) for i in range(n)}, '_bounded'
+
+
 def build_cases(tier, rnd):
     cases = []
     quick = tier == 'quick'
@@ -72,7 +118,10 @@ def build_cases(tier, rnd):
         tt = t
         for op in ARITH:
             tag = '%s_%s_vv' % (OPNAME[op], tt)
-            cases.append(mk_case(tag, [('x', t), ('y', t)], t, 'x %s y' % op, lambda x, y, op=op, t=t: binop(op, t, x, y)))
+            # $div64 is a 64-round shift-subtract loop: the operand magnitude is bounded per tier (stated in the evidence)
+            nds, sfx = nds_for(t, [op], 2, tier)
+            tag += sfx
+            cases.append(mk_case(tag, [('x', t), ('y', t)], t, 'x %s y' % op, lambda x, y, op=op, t=t: binop_via(op, t, x, y), nds=nds))
         for op in CMP:
             tag = '%s_%s_vv' % (OPNAME[op], tt)
             cases.append(mk_case(tag, [('x', t), ('y', t)], 'bool', 'x %s y' % op, lambda x, y, op=op, t=t: binop(op, t, x, y)))
@@ -93,12 +142,15 @@ def build_cases(tier, rnd):
         for op in ARITH:
             for c in consts:
                 cn = ('m%d' % -c) if c < 0 else str(c)
-                tag = '%s_%s_vc_%s' % (OPNAME[op], t, cn)
+                nds, sfx = nds_for(t, [op], 1, tier)
+                if sfx and abs(c) >= (1 << DIV64_BITS[tier]):
+                    continue
+                tag = '%s_%s_vc_%s%s' % (OPNAME[op], t, cn, sfx)
                 cases.append(mk_case(tag, [('x', t)], t, 'x %s %s' % (op, go_const(t, c)),
-                                     lambda x, op=op, t=t, c=c: binop(op, t, x, gospec.lit(c))))
-                tag = '%s_%s_cv_%s' % (OPNAME[op], t, cn)
+                                     lambda x, op=op, t=t, c=c: binop(op, t, x, gospec.lit(c)), nds=nds))
+                tag = '%s_%s_cv_%s%s' % (OPNAME[op], t, cn, sfx)
                 cases.append(mk_case(tag, [('y', t)], t, '%s %s y' % (go_const(t, c), op),
-                                     lambda y, op=op, t=t, c=c: binop(op, t, gospec.lit(c), y)))
+                                     lambda y, op=op, t=t, c=c: binop(op, t, gospec.lit(c), y), nds=nds))
         w = INT_TYPES[t][1]
         counts = sorted(set([0, 1, w - 1, w, w + 1, 31, 32, 33, 63, 64, 65]))
         if quick:
@@ -118,13 +170,15 @@ def build_cases(tier, rnd):
                 p2, v2, _ = binop(o2, t, v1, z)
                 ps = [p for p in (p1, p2) if p]
                 return ('(or %s)' % ' '.join(ps) if ps else None), v2, 'int'
-            cases.append(mk_case(tag, [('x', t), ('y', t), ('z', t)], t, '(x %s y) %s z' % (o1, o2), ref))
+            nds, sfx = nds_for(t, [o1, o2], 3, tier)
+            cases.append(mk_case(tag + sfx, [('x', t), ('y', t), ('z', t)], t, '(x %s y) %s z' % (o1, o2), ref, nds=nds))
         for op in ARITH + ['<<', '>>']:
             tag = 'assign_%s_%s' % (OPNAME[op], t)
             if op in ('<<', '>>'):
                 cases.append(mk_case(tag, [('x', t), ('y', 'uint8')], t, '\tx %s= y\n\treturn x' % op, lambda x, y, op=op, t=t: binop(op, t, x, y), is_body=True))
             else:
-                cases.append(mk_case(tag, [('x', t), ('y', t)], t, '\tx %s= y\n\treturn x' % op, lambda x, y, op=op, t=t: binop(op, t, x, y), is_body=True))
+                nds, sfx = nds_for(t, [op], 2, tier)
+                cases.append(mk_case(tag + sfx, [('x', t), ('y', t)], t, '\tx %s= y\n\treturn x' % op, lambda x, y, op=op, t=t: binop(op, t, x, y), is_body=True, nds=nds))
         cases.append(mk_case('inc_%s' % t, [('x', t)], t, '\tx++\n\treturn x', lambda x, t=t: binop('+', t, x, '1'), is_body=True))
         cases.append(mk_case('dec_%s' % t, [('x', t)], t, '\tx--\n\treturn x', lambda x, t=t: binop('-', t, x, '1'), is_body=True))
     # 4. integer conversions between every pair of types
@@ -145,7 +199,7 @@ def main():
     if only:
         import re
         cases = [c for c in cases if re.search(only, c.tag)]
-    return runner.run_property('C06', cases, tier=tier, chunk=30,
+    return runner.run_property('C06', cases, tier=tier, chunk=int(os.environ.get('VERIF_CHUNK', '30')),
                                title='operator table of the Go specification vs symbolic execution of the emitted JavaScript',
                                bounds={'integers': 'all operand values, full width (no bound)',
                                        'shift counts': 'all values; counts < 32 are case-split by the engine (one path per count), larger ones stay symbolic',
